@@ -325,6 +325,12 @@ class Analyzer:
                 op = {"lt": "<", "le": "<=", "gt": ">", "ge": ">="}[p.split("::")[-1]]
                 a, b2 = self.sym_deref(args[0]), self.sym_deref(args[1])
                 out.append(("cmp", op if truth else NEG[op], a, b2))
+            elif re.search(r"ops::range::Range(Inclusive)?::<.*>::contains", p) and len(args) == 2 and truth is True and self.range_bounds(args[0], line=st.get("line")) is not None:
+                # `(lo..=hi).contains(&x)` holds: lo <= x and x <= hi (x < hi for a half-open range)
+                lo, hi, incl = self.range_bounds(args[0], line=st.get("line"))
+                x = self.sym_deref(args[1])
+                out.append(("cmp", ">=", x, lo))
+                out.append(("cmp", "<=" if incl else "<", x, hi))
             elif truth is not None:
                 out.append(("call", p, truth, tuple(self.operand_root(a) if a[0] in ("C", "M") else ("k", a[1]) for a in args)))
             return out
@@ -354,12 +360,56 @@ class Analyzer:
                 out.append(("len_notin", r, tuple(how[1])))
         return out
 
+    def range_bounds(self, op, depth=0, line=None):
+        """(lo sym, hi sym, inclusive) of a range the operand refers to, when it is built in this body from RangeInclusive::new(lo, hi) or Range { start, end }"""
+        if op[0] == "K" and "::promoted[" in str(op[1]) and line is not None:
+            # a literal range promoted to a constant: its bounds are read from the (type-checked) source expression of the `contains` call on that line
+            from facts import find_hir, strip
+            h = self.F.hir.get(self.name)
+            if h is None and self.b.get("kind") == "closure":
+                h = self.F.hir.get(self.b.get("parent"))
+            hits = [x for x, _ in find_hir(h["body"], lambda x: x.get("k") == "MethodCall" and x.get("method") == "contains" and x.get("l") == line)] if h else []
+            if len(hits) == 1:
+                r = strip(hits[0]["recv"])
+                if r.get("k") == "Call" and (r.get("callee") or "").endswith("RangeInclusive::<Idx>::new") and len(r.get("args", [])) == 2:
+                    a, b2 = strip(r["args"][0]), strip(r["args"][1])
+                    if a.get("k") == "Lit" and b2.get("k") == "Lit" and isinstance(a.get("v"), int) and isinstance(b2.get("v"), int):
+                        return (("c", a["v"]), ("c", b2["v"]), True)
+                if r.get("k") == "Struct" and (r.get("path") or "").endswith("::Range"):
+                    f = {x["name"]: strip(x["e"]) for x in r.get("fields", [])}
+                    if f.get("start", {}).get("k") == "Lit" and f.get("end", {}).get("k") == "Lit":
+                        return (("c", f["start"]["v"]), ("c", f["end"]["v"]), False)
+            return None
+        if op[0] not in ("C", "M") or depth > 4:
+            return None
+        l = op[1][0]
+        defs = self.B.defs.get(l, [])
+        if len(defs) != 1:
+            return None
+        bi, si, kind, st = defs[0]
+        if kind == "call":
+            p = st["f"].get("p") or ""
+            if re.search(r"RangeInclusive::<.*>::new$", p) and len(st["args"]) == 2:
+                return (self.sym(st["args"][0]), self.sym(st["args"][1]), True)
+            return None
+        rv = st[2]
+        if rv[0] == "Ref":
+            return self.range_bounds(["C", [rv[2][0]]], depth + 1, line) if rv[2][1:] in ([], ["*"]) else None
+        if rv[0] == "Use":
+            return self.range_bounds(rv[1], depth + 1, line)
+        if rv[0] == "Agg" and isinstance(rv[1], list) and rv[1][0] == "adt" and rv[1][1].split("::")[-1] == "Range" and len(rv[2]) == 2:
+            return (self.sym(rv[2][0]), self.sym(rv[2][1]), False)
+        return None
+
     def sym_deref(self, op):
         """symbolic value behind a reference operand (&usize passed to PartialOrd::lt)"""
         if op[0] in ("C", "M") and len(op[1]) == 1:
             defs = self.B.defs.get(op[1][0], [])
             if len(defs) == 1 and defs[0][2] == "assign" and defs[0][3][2][0] == "Ref":
                 pl = defs[0][3][2][2]
+                if len(pl) == 2 and pl[1] == "*":
+                    # a reborrow `&*r`: the value behind r
+                    return self.sym_deref(["C", [pl[0]]])
                 return self.sym(["C", pl])
         return self.sym(op)
 
